@@ -91,10 +91,13 @@ CHECKS = {
                  TargetOps=['add_face4', 'add_cell6'], q=0),
         ],
         thorough=[
-            dict(name='states', Depth=3, SeedIds=[1, 2, 3, 4, 5, 6],
+            dict(name='states', Depth=2, SeedIds=[1, 2, 3, 4, 5, 6],
                  HistOps=['delete_cell', 'delete_vertex', 'delete_face', 'collect_garbage'],
                  TargetOps=['delete_cell', 'delete_face', 'delete_edge', 'delete_vertex', 'collect_garbage', 'hex_add_cell_v'],
-                 q=1, sample=40000),
+                 q=1, sample=20000),
+            dict(name='states-3', Depth=3, SeedIds=[2, 3, 4, 5],
+                 HistOps=['delete_cell', 'collect_garbage'],
+                 TargetOps=['delete_cell', 'collect_garbage', 'hex_add_cell_v'], q=1, sample=10000),
             dict(name='adjacency', Depth=2, SeedIds=[1, 2, 3, 4, 5, 6], Modes='ModesAll', HistOps=['delete_cell', 'collect_garbage'],
                  TargetOps=['delete_cell', 'hex_add_cell_v'], q=2, sample=3000),
             dict(name='permutations', Depth=2, SeedIds=[1, 2, 6], Modes='ModesAll', HistOps=['delete_cell'],
